@@ -885,6 +885,9 @@ func c09r6(p *Program, r *Report) {
 	if fi == nil {
 		return
 	}
+	if c09r6ByRole(p, r, fi) {
+		return
+	}
 	info := fi.Pkg.TypesInfo
 	norm := func(e ast.Expr) string { return strings.ReplaceAll(exprStr(e), " ", "") }
 	var pk, md *ast.RangeStmt
@@ -1230,4 +1233,301 @@ func threeWayOf(p *Program, fi *FuncInfo, kind string) (string, string) {
 		return "bad", "helper " + fi.Name + " derives the order from a difference of the two values, which overflows for tokens more than 2^63 apart"
 	}
 	return verdict, why
+}
+
+// c09r6ByRole recognises the two constructions of routingKeyInfo by the roles of what they touch (the prepared
+// metadata's pkeyColumns and columns fields, the indexes / types fields of the routingKeyInfo under construction,
+// the table's partition key) instead of by spelling, in whichever function of routingKeyInfo's units they live.
+// It reports (and returns true) only when it finds both constructions; otherwise the spelled-out rule takes over.
+func c09r6ByRole(p *Program, r *Report, top *FuncInfo) bool {
+	pkF := p.Field("preparedMetadata", "pkeyColumns")
+	colsF := p.Field("resultMetadata", "columns")
+	idxF := p.Field("routingKeyInfo", "indexes")
+	typF := p.Field("routingKeyInfo", "types")
+	if pkF == nil || colsF == nil || idxF == nil || typF == nil {
+		return false
+	}
+	type verdict struct {
+		node                         ast.Node
+		okT, okI                     bool
+		inner                        ast.Node
+		okPair, okFirst, okMissing   bool
+		haveV4, haveMD               bool
+	}
+	var v verdict
+	for _, u := range p.unitsOf(top) {
+		info := u.Pkg.TypesInfo
+		alias := func(e ast.Expr, f types.Object) bool {
+			e = ast.Unparen(e)
+			if fieldOf(info, e) == f {
+				return true
+			}
+			if id, isId := e.(*ast.Ident); isId {
+				if obj := info.Uses[id]; obj != nil && singleAssigned(info, u.Decl.Body, obj) {
+					if d := localDef(info, u, id); d != nil && fieldOf(info, d) == f {
+						return true
+					}
+				}
+			}
+			return false
+		}
+		sameObj := func(a, b ast.Expr) bool {
+			ia, okA := ast.Unparen(a).(*ast.Ident)
+			ib, okB := ast.Unparen(b).(*ast.Ident)
+			if !okA || !okB {
+				return false
+			}
+			oa, ob := info.ObjectOf(ia), info.ObjectOf(ib)
+			return oa != nil && oa == ob
+		}
+		// ---- protocol v4: types[i] = columns[pkeyColumns[i]].TypeInfo, indexes: pkeyColumns
+		inspectNoLit(u.Decl.Body, func(x ast.Node) bool {
+			as, ok := x.(*ast.AssignStmt)
+			if !ok || len(as.Lhs) != 1 || len(as.Rhs) != 1 {
+				return true
+			}
+			lix, isL := ast.Unparen(as.Lhs[0]).(*ast.IndexExpr)
+			sel, isS := ast.Unparen(as.Rhs[0]).(*ast.SelectorExpr)
+			if !isL || !isS || sel.Sel.Name != "TypeInfo" {
+				return true
+			}
+			cix, isC := ast.Unparen(sel.X).(*ast.IndexExpr)
+			tid, isT := ast.Unparen(lix.X).(*ast.Ident)
+			if !isC || !isT || !alias(cix.X, colsF) {
+				return true
+			}
+			// the loop that runs i over pkeyColumns
+			lp := p.enclosing(as, u.Decl, func(n ast.Node) bool {
+				switch n.(type) {
+				case *ast.ForStmt, *ast.RangeStmt:
+					return true
+				}
+				return false
+			})
+			okLoop := false
+			switch l := lp.(type) {
+			case *ast.RangeStmt:
+				if alias(l.X, pkF) && l.Key != nil && sameObj(l.Key, lix.Index) {
+					if l.Value != nil && sameObj(l.Value, cix.Index) {
+						okLoop = true
+					}
+					if pix, isP := ast.Unparen(cix.Index).(*ast.IndexExpr); isP && alias(pix.X, pkF) && sameObj(pix.Index, l.Key) {
+						okLoop = true
+					}
+				}
+			case *ast.ForStmt:
+				if pix, isP := ast.Unparen(cix.Index).(*ast.IndexExpr); isP && alias(pix.X, pkF) && sameObj(pix.Index, lix.Index) {
+					// for i := 0; i < len(pk); i++
+					if init, isI := l.Init.(*ast.AssignStmt); isI && len(init.Lhs) == 1 && sameObj(init.Lhs[0], lix.Index) {
+						if z, isZ := constInt(info, init.Rhs[0]); isZ && z == 0 {
+							if cond, isB := l.Cond.(*ast.BinaryExpr); isB && cond.Op == token.LSS && sameObj(cond.X, lix.Index) {
+								if lc, isLen := ast.Unparen(cond.Y).(*ast.CallExpr); isLen && calleeName(info, lc) == "builtin.len" && alias(lc.Args[0], pkF) {
+									if inc, isInc := l.Post.(*ast.IncDecStmt); isInc && inc.Tok == token.INC && sameObj(inc.X, lix.Index) {
+										okLoop = true
+									}
+								}
+							}
+						}
+					}
+				}
+			}
+			if lp == nil {
+				return true
+			}
+			v.haveV4, v.node = true, lp
+			v.okT = okLoop
+			// the literal that takes the types and the indexes
+			inspectNoLit(u.Decl.Body, func(y ast.Node) bool {
+				cl, isCL := y.(*ast.CompositeLit)
+				if !isCL || typeNameOf(info.TypeOf(cl)) != "routingKeyInfo" {
+					return true
+				}
+				gotT, gotI := false, false
+				for _, el := range cl.Elts {
+					kv, isKV := el.(*ast.KeyValueExpr)
+					if !isKV {
+						continue
+					}
+					switch exprStr(kv.Key) {
+					case "types":
+						gotT = sameObj(kv.Value, tid)
+					case "indexes":
+						gotI = alias(kv.Value, pkF)
+					}
+				}
+				if gotT {
+					v.okI = gotI
+				}
+				return true
+			})
+			return true
+		})
+		// ---- table metadata: component k <- first bound column named like partition-key column k
+		inspectNoLit(u.Decl.Body, func(x ast.Node) bool {
+			outer, ok := x.(*ast.RangeStmt)
+			if !ok || outer.Key == nil || outer.Value == nil {
+				return true
+			}
+			if t := info.TypeOf(outer.X); t == nil || !strings.HasSuffix(t.String(), "[]*"+rootPath+".ColumnMetadata") {
+				return true
+			}
+			var inner *ast.RangeStmt
+			innerAt := -1
+			for i, st := range outer.Body.List {
+				if rs, isR := st.(*ast.RangeStmt); isR && alias(rs.X, colsF) && rs.Key != nil {
+					inner, innerAt = rs, i
+				}
+			}
+			if inner == nil {
+				return true
+			}
+			v.haveMD, v.inner = true, inner
+			if v.node == nil {
+				v.node = outer
+			}
+			g := p.GraphOf(u)
+			facts := g.GuardFacts()
+			var storeI, storeT *ast.AssignStmt
+			var rkExpr ast.Expr
+			ast.Inspect(inner.Body, func(y ast.Node) bool {
+				as, isA := y.(*ast.AssignStmt)
+				if !isA || len(as.Lhs) != 1 || len(as.Rhs) != 1 {
+					return true
+				}
+				lix, isL := ast.Unparen(as.Lhs[0]).(*ast.IndexExpr)
+				if !isL || !sameObj(lix.Index, outer.Key) {
+					return true
+				}
+				switch fieldOf(info, lix.X) {
+				case idxF:
+					if sameObj(as.Rhs[0], inner.Key) {
+						storeI = as
+						if sel, isSel := ast.Unparen(lix.X).(*ast.SelectorExpr); isSel {
+							rkExpr = sel.X
+						}
+					}
+				case typF:
+					if sel, isSel := ast.Unparen(as.Rhs[0]).(*ast.SelectorExpr); isSel && sel.Sel.Name == "TypeInfo" {
+						if inner.Value != nil && sameObj(sel.X, inner.Value) {
+							storeT = as
+						}
+						if cix, isC := ast.Unparen(sel.X).(*ast.IndexExpr); isC && alias(cix.X, colsF) && sameObj(cix.Index, inner.Key) {
+							storeT = as
+						}
+					}
+				}
+				return true
+			})
+			if storeI == nil || storeT == nil {
+				return true
+			}
+			// both under the equality of the two names
+			nameEq := func(at ast.Node) bool {
+				f, okF := facts.Before(at)
+				if !okF {
+					return false
+				}
+				kc := exprStr(outer.Value) + ".Name"
+				var bcs []string
+				if inner.Value != nil {
+					bcs = append(bcs, exprStr(inner.Value)+".Name")
+				}
+				bcs = append(bcs, strings.ReplaceAll(exprStr(inner.X), " ", "")+"["+exprStr(inner.Key)+"].Name")
+				for atom, val := range f.m {
+					if !val || !strings.Contains(atom, " == ") || !mentions(atom, kc) {
+						continue
+					}
+					for _, bc := range bcs {
+						if strings.Contains(strings.ReplaceAll(atom, " ", ""), strings.ReplaceAll(bc, " ", "")) {
+							return true
+						}
+					}
+				}
+				return false
+			}
+			sameBlock := p.Parent(storeI) == p.Parent(storeT)
+			v.okPair = nameEq(storeI) && nameEq(storeT) && sameBlock
+			// the search stops there: the block of the stores ends by leaving the inner loop
+			leavesByContinue := false
+			if blk, isBlk := p.Parent(storeI).(*ast.BlockStmt); isBlk && len(blk.List) > 0 {
+				if br, isBr := blk.List[len(blk.List)-1].(*ast.BranchStmt); isBr {
+					switch {
+					case br.Tok == token.BREAK && br.Label == nil:
+						v.okFirst = p.enclosing(br, u.Decl, func(n ast.Node) bool {
+							switch n.(type) {
+							case *ast.ForStmt, *ast.RangeStmt, *ast.SwitchStmt, *ast.SelectStmt, *ast.TypeSwitchStmt:
+								return true
+							}
+							return false
+						}) == ast.Node(inner)
+					case br.Tok == token.CONTINUE && br.Label != nil:
+						if ls, isLS := p.Parent(outer).(*ast.LabeledStmt); isLS && ls.Label.Name == br.Label.Name {
+							v.okFirst, leavesByContinue = true, true
+						}
+					}
+				}
+			}
+			// a partition-key column that no bound column matches: no routing key
+			noKey := func(rs *ast.ReturnStmt) bool {
+				bad := false
+				for _, res := range rs.Results {
+					ast.Inspect(res, func(z ast.Node) bool {
+						if e, isE := z.(ast.Expr); isE && rkExpr != nil && exprStr(e) == exprStr(rkExpr) {
+							bad = true
+						}
+						return true
+					})
+				}
+				return !bad
+			}
+			if leavesByContinue {
+				// falling out of the inner loop means "not found": the next statement returns without the key
+				if innerAt+1 < len(outer.Body.List) {
+					if rs, isRet := outer.Body.List[innerAt+1].(*ast.ReturnStmt); isRet && noKey(rs) {
+						v.okMissing = true
+					}
+				}
+			} else {
+				// the sentinel: indexes[k] = -1 before the search, tested after it
+				sentinel := false
+				for _, st := range outer.Body.List[:innerAt] {
+					if as, isA := st.(*ast.AssignStmt); isA && len(as.Lhs) == 1 && len(as.Rhs) == 1 {
+						if lix, isL := ast.Unparen(as.Lhs[0]).(*ast.IndexExpr); isL && fieldOf(info, lix.X) == idxF && sameObj(lix.Index, outer.Key) {
+							if k, isK := constInt(info, as.Rhs[0]); isK && k == -1 {
+								sentinel = true
+							}
+						}
+					}
+				}
+				for _, st := range outer.Body.List[innerAt+1:] {
+					ifs, isIf := st.(*ast.IfStmt)
+					if !isIf || len(ifs.Body.List) == 0 {
+						continue
+					}
+					be, isB := ast.Unparen(ifs.Cond).(*ast.BinaryExpr)
+					if !isB || be.Op != token.EQL && be.Op != token.LSS {
+						continue
+					}
+					lix, isL := ast.Unparen(be.X).(*ast.IndexExpr)
+					k, isK := constInt(info, be.Y)
+					if !isL || !isK || fieldOf(info, lix.X) != idxF || !sameObj(lix.Index, outer.Key) || !(be.Op == token.EQL && k == -1 || be.Op == token.LSS && k == 0) {
+						continue
+					}
+					if rs, isRet := ifs.Body.List[len(ifs.Body.List)-1].(*ast.ReturnStmt); isRet && noKey(rs) && sentinel {
+						v.okMissing = true
+					}
+				}
+			}
+			return true
+		})
+	}
+	if !v.haveV4 || !v.haveMD {
+		return false
+	}
+	r.Check(v.okT, v.node, "routingKeyInfo (v4): type i is the type of bound column pkeyColumns[i]", "types[i] = columns[pkeyColumns[i]].TypeInfo", "the i-th routing key type is not taken from the bound column the i-th partition-key index names")
+	r.Check(v.okI, v.node, "routingKeyInfo (v4): indexes are the server's pk indexes in order", "indexes: info.request.pkeyColumns", "the routing key indexes are not the prepared metadata's partition-key indexes in their order")
+	r.Check(v.okPair, v.inner, "routingKeyInfo (metadata): component k gets the index and type of the bound column named like partition-key column k", "indexes[k] = argIndex; types[k] = boundColumn.TypeInfo under name equality", "a partition-key component is paired with the wrong bound column index or type")
+	r.Check(v.okFirst, v.inner, "routingKeyInfo (metadata): the first bound column of that name is used", "the search is left at the first match", "the search does not stop at the first matching bound column")
+	r.Check(v.okMissing, v.inner, "routingKeyInfo (metadata): a partition-key column without a bound value yields no routing key", "return without a key", "a partition-key column that is not bound does not abandon routing-key construction (a partial key would hash to a wrong token)")
+	return true
 }
